@@ -76,6 +76,7 @@ Example C11_converges_nonvacuous :
      = {| v_present := true; v_stopped := false;
           v_eps := [None; Some (false, false); Some (false, false); None];
           v_fcs := [("system-default", FExempt); ("s2", FTB 5 10); ("system-default", FExempt)];
+          v_enf := [FExempt; FTB 5 10; FExempt];
           v_gates := [false; false; false; true];
           v_probes := [Some {| pr_fcname := "s2"; pr_fc := ("s2", FTB 5 10);
                                pr_ups := [false; true; true; false]; pr_log := false |};
@@ -85,6 +86,23 @@ Example C11_converges_nonvacuous :
           v_keys := [true; false; true; false] |}
   /\ view_of demo_probes (w_gw (run empty_world demo11)) "a" = view_of demo_probes (fresh [v2; other_b]) "a"
   /\ view_of demo_probes (w_gw (run empty_world demo11)) "x" = view_of demo_probes (fresh [v2; other_b]) "b".
+Proof. split; [repeat constructor|]. vm_compute. repeat split; reflexivity. Qed.
+
+(* a hot reload that changes ONLY the burst of a token-bucket schema (then only the rate, then both): the limiter
+   enforces the latest limits, exactly like a fresh gateway *)
+Definition tb (q b : Z) : obj :=
+  {| o_name := "a"; o_gates := []; o_fc := [{| s_name := "s1"; s_kind := FTB q b |}]; o_sn := []; o_cert := 0;
+     o_key := 0; o_ca := 0; o_eps := [(0, 0)]; o_pol := [pol ["*"] "s1" [] 0]; o_log := 0; o_client := 0 |}.
+Example C11_burst_only_nonvacuous :
+  let P := {| pb_eps := [0]; pb_schemas := ["s1"]; pb_verbs := ["get"]; pb_hosts := ["a"] |} in
+  let h := [OApply false (tb 5 10); OApply false (tb 5 50)] in
+  Forall legal (h ++ [OApply false (tb 5 7); OApply false (tb 9 9)])
+  /\ v_enf (view_of P (w_gw (run empty_world [OApply false (tb 5 10)])) "a") = [FTB 5 10]
+  /\ v_enf (view_of P (w_gw (run empty_world h)) "a") = [FTB 5 50]
+  /\ view_of P (w_gw (run empty_world h)) "a" = view_of P (fresh [tb 5 50]) "a"
+  /\ v_enf (view_of P (w_gw (run empty_world (h ++ [OApply false (tb 5 7)]))) "a") = [FTB 5 7]
+  /\ view_of P (w_gw (run empty_world (h ++ [OApply false (tb 5 7); OApply false (tb 9 9)]))) "a"
+     = view_of P (fresh [tb 9 9]) "a".
 Proof. split; [repeat constructor|]. vm_compute. repeat split; reflexivity. Qed.
 
 (* ---------------------------------------------------------------- failed attempts (recorded)
